@@ -337,12 +337,21 @@ package runtime
 //@   ensures r1 == nil ==> okElem(r0)
 //@   ensures [globals-first] has(vm.globals, name.Literal) ==> r1 == nil && r0 == vm.globals[name.Literal]
 //@   ensures [undefined] r1 != nil ==> isRuntimeError(r1, 42)
+// C15: an imported method behaves as inside its own module - the methods and types its module exports stay visible to
+// it after the module body (and the scope of that body) has ended
+//@   ensures [own-module-exports-stay-visible] vm.csModuleID >= 0 && vm.csModuleID < len(vm.moduleGraph.modules) && vm.moduleGraph.modules[vm.csModuleID] != nil &&
+//@             has(vm.moduleGraph.modules[vm.csModuleID].exportValues, name.Literal) ==> r1 == nil
+//@   ensures [a-name-found-nowhere-else-is-the-export] r1 == nil && !has(vm.globals, name.Literal) && @Scope_GetValue#1.r0 == nil ==> r0 == vm.moduleGraph.modules[vm.csModuleID].exportValues[name.Literal]
 
 //@ method (*VM).FindElementWithModule
 //@   requires vmWF(vm) && name != nil && has(vm.valueStack, vm.csModuleID)
 //@   modifies nothing
 //@   ensures r2 == nil ==> okElem(r0)
 //@   ensures [globals-first] has(vm.globals, name.Literal) ==> r2 == nil && r0 == vm.globals[name.Literal] && r1 == NativeCodeModule
+//@   ensures [own-module-exports-stay-visible] vm.csModuleID >= 0 && vm.csModuleID < len(vm.moduleGraph.modules) && vm.moduleGraph.modules[vm.csModuleID] != nil &&
+//@             has(vm.moduleGraph.modules[vm.csModuleID].exportValues, name.Literal) ==> r2 == nil
+//@   ensures [an-own-export-runs-in-its-own-module] r2 == nil && !has(vm.globals, name.Literal) && @Scope_GetValueWithModuleID#1.r0 == nil ==>
+//@             r0 == vm.moduleGraph.modules[vm.csModuleID].exportValues[name.Literal] && r1 == vm.moduleGraph.modules[vm.csModuleID]
 
 // declarations: predefined names can be neither redeclared nor shadowed (error 43); otherwise the scope decides
 //@ method (*VM).DeclareElement
